@@ -2,6 +2,7 @@ SPECIFICATION FairSpec
 CONSTANTS
   Threads = {1, 2}
   VarOf <- SameVar2
+  LockOf <- SameVar2
   Chunks <- Ch2
   SharedHandle = FALSE
   UseLock = FALSE
